@@ -95,6 +95,11 @@ def run(ctx):
         A = [(n, r) for n, r in A if True]
         if len(set(n for n, _ in A)) != len(A):
             continue
+        if rng.random() < 0.15:
+            # unique names that agree in their first 256+ characters (FASTA headers are taken whole): rows must still be paired by the full name
+            pre = "".join(rng.choice("abcdefghijklmnopqrstuvwxyz_|.") for _ in range(rng.choice([255, 256, 257, 300])))
+            A = [(pre + "isoform%d" % k, r) for k, (n, r) in enumerate(A)]
+            ctx.count("long_common_prefix_names")
         mode = rng.randrange(5)
         if mode == 0:
             T, tag = list(A), "identical"
